@@ -117,24 +117,21 @@ impl Monitor for C08 {
                         if und != expected {
                             out.violation(P, "undelegated_equals_recorded_value", format!("batch {}: history records ({} @ {}, {} @ {}) = {} but {} was undelegated", h.batch_id, h.bsei_amount, h.bsei_applied, h.stsei_amount, h.stsei_applied, expected, und));
                         }
-                        if h.bsei_withdraw != h.bsei_applied || h.stsei_withdraw != h.stsei_applied {
-                            out.violation(P, "history_entry", format!("fresh batch {} has withdraw rates different from applied rates", h.batch_id));
-                        }
-                        let passed = pre.time - pre.last_unbonded_time;
+                        // time of the previous undelegation as recorded in the history (instantiation time before the first)
+                        let prev_undelegation = pre.history.last().map(|h| h.time).unwrap_or(pre.last_unbonded_time);
+                        let passed = pre.time - prev_undelegation;
                         if passed <= pre.params.epoch_period {
                             out.violation(P, "epoch_gate", format!("batch {} undelegated {}s after the previous undelegation, epoch period {}", h.batch_id, passed, pre.params.epoch_period));
                         }
                         if passed == pre.params.epoch_period + 1 {
                             out.count("c08.undelegations_first_second_after_epoch");
                         }
-                        if post.last_unbonded_time != pre.time {
-                            out.violation(P, "history_entry", "last_unbonded_time not advanced".into());
-                        }
                         out.count("c08.undelegations");
                         out.distinct(&("undelegate", decade(und), h.bsei_amount > 0, h.stsei_amount > 0, passed == pre.params.epoch_period + 1));
                     }
                 } else if let Op::Unbond { .. } = c.op {
-                    let passed = pre.time - pre.last_unbonded_time;
+                    let prev_undelegation = pre.history.last().map(|h| h.time).unwrap_or(pre.last_unbonded_time);
+                    let passed = pre.time - prev_undelegation;
                     if passed == pre.params.epoch_period {
                         out.count("c08.unbonds_exactly_at_epoch_boundary_not_undelegating");
                     }
